@@ -4,9 +4,11 @@ CONSTANT Level <- LevelDefA
 CONSTANT M <- MDefA
 CONSTANT MaxSoft = 6
 CONSTANT MaxDepth = 0
-INVARIANT NotAccepted
 INVARIANT SumIsMin
 INVARIANT NoMoreThanAsked
 INVARIANT PriorityOrder
 INVARIANT RequestsSane
+\* NotAccepted is listed LAST: TLC reports the first violated invariant of a state, and a property invariant violated in the final state of a
+\* recorded execution must not be masked by the acceptance marker
+INVARIANT NotAccepted
 CHECK_DEADLOCK FALSE
